@@ -12,6 +12,29 @@ CHECKS = {
              "toward-never-past) is discharged by z3 for all real v in [-200,200], dt in (0,1000], states in [0,1] and parameter ranges.",
         technique="contract-based deductive verification: VCs generated from the real code objects, discharged by z3 (exp as UF + axioms)"),
 }
+CHECKS.update({
+    "C01": dict(cat="proof", ref="DESIGN.md §4 C01",
+        text="For every enumerated static structure (tree shape x compartment counts x cells/networks) the REAL functions of solver_voltage.py, "
+             "compute_axial_conductances and Module.step run symbolically on per-compartment symbolic geometry, capacitance, membrane terms, voltages and dt. "
+             "Contracts at every elimination step (pivots non-zero, solution preserved, M-matrix invariant re-established) on fresh pre-state symbols, the assembled "
+             "system proved equal to the cable-physics specification (specs/cable.py), the final view proved the identity; jax.sparse decided via the CSR denotation "
+             "of the arrays handed to spsolve; bwd_euler/crank_nicolson/fwd_euler scheme selection and the Crank-Nicolson lemma. All REAL parameter values are covered "
+             "by z3 per structure; structures are enumerated exhaustively up to the stated bound (not unbounded).",
+        technique="contract-based deductive verification of the real solver code per static structure (z3 QF_NRA), structures bounded-exhaustive"),
+    "C04": dict(cat="proof", ref="DESIGN.md §4 C04",
+        text="The real gate functions, compute_current, init_state and parameter dictionaries of HH, Leak, Na, K, Km, CaL, CaT and IonotropicSynapse are executed symbolically and "
+             "proved equal to the published equations (specs/kinetics.py) for all v in [-150,100] and parameter ranges: exact equality where the exp-clip is provably inactive, "
+             "|x_inf| 1e-6 / tau rel 1e-6 where it can be active, 1e-9 relative within 1e-6 of a removable singularity; renaming proved to change names only.",
+        technique="contract-based deductive verification: real code objects vs literature specification, z3 with exp axioms + incremental linearisation"),
+    "C14": dict(cat="proof", ref="DESIGN.md §4 C14",
+        text="init_state contracts (each gating variable == steady state of its own gate at the given voltage/parameters), update_states contracts (closed-form update of that same gate) "
+             "and the fixed-point lemma update(init)==init for all dt>0, all discharged by z3 from the real code for every built-in channel.",
+        technique="contract-based deductive verification (modular: gate contracts as uninterpreted functions), z3"),
+    "C17": dict(cat="proof", ref="DESIGN.md §4 C17",
+        text="Real forward/inverse of Sigmoid, Softplus, NegSoftplus, Affine transforms proved bounded, strictly monotone and mutually inverse for all x in [-1e6,1e6] and all lower<upper; "
+             "Chain/Masked/ParamTransform proved to compose uninterpreted component bijections correctly.",
+        technique="contract-based deductive verification, z3 with exp/log axioms (goal-directed exponentiation)"),
+})
 NOT_APPLICABLE = {
     "C18": "pickle/deepcopy round-trips are decided by CPython's object-graph serialisation, not by any repository function; no pre/postcondition "
            "within reach of a deductive verifier can express it (DESIGN.md §5). The picklability clause of the module invariant is covered under C19 as bounded.",
